@@ -345,6 +345,76 @@ def specHasStack (cs : List Call) : Bool := cs.any (fun c => c.m.takesStack)
 
 def E.hasStack (e : E) : Bool := !e.stack.isEmpty
 
+/-! ## generated extension types (`gerror/gen/generate.go`, `gerror.gotmpl`) -/
+
+/-- One extra field of an extension struct, as `createField` sees it.  `zero` is how `%v` prints the
+zero value of the field's type (the only thing the model needs to know about the type). -/
+structure FieldDef where
+  name : Str
+  /-- tag name; `_` has already been replaced by the field name -/
+  printAs : Str
+  print : Bool
+  clone : Bool
+  zero : Str
+  deriving DecidableEq, Repr
+
+/-- the extra fields of the struct, in declaration order (untagged ones have `print = clone = false`) -/
+abbrev ExtDef := List FieldDef
+
+/-- Go's `<` on strings (bytewise = by code point for valid UTF-8) as `≤` -/
+def strLe : Str → Str → Bool
+  | [], _ => true
+  | _ :: _, [] => false
+  | a :: as, b :: bs => if a.toNat < b.toNat then true else if b.toNat < a.toNat then false else strLe as bs
+
+def insertField (f : FieldDef) : List FieldDef → List FieldDef
+  | [] => [f]
+  | g :: gs => if strLe f.name g.name then f :: g :: gs else g :: insertField f gs
+
+/-- `sort.Sort(Fields(r))`: by field name.  The names of one struct are distinct, so every sorting
+algorithm yields the same list; the model uses insertion sort. -/
+def sortFields (fs : List FieldDef) : List FieldDef := fs.foldr insertField []
+
+/-- `ErrorDesc.FieldsToPrint` -/
+def fieldsToPrint (d : ExtDef) : List FieldDef := sortFields (d.filter (·.print))
+/-- `ErrorDesc.FieldsToClone` -/
+def fieldsToClone (d : ExtDef) : List FieldDef := sortFields (d.filter (·.clone))
+
+/-- an extension object: the embedded `GError` and the `%v` rendering of every extra field -/
+structure X where
+  base : E
+  vals : List (Str × Str)
+  deriving DecidableEq, Repr
+
+def X.val (x : X) (n : Str) : Str := ((x.vals.find? (fun p => p.1 = n)).map (·.2)).getD []
+
+/-- template `toPrimaryType`: `&T{GError: *gerr, <each field to clone>: e.<field>}` — every other
+field keeps its zero value -/
+def toPrimary (d : ExtDef) (x : X) (gerr : E) : X :=
+  { base := gerr,
+    vals := d.map (fun f => (f.name, if f ∈ fieldsToClone d then x.val f.name else f.zero)) }
+
+/-- a template stanza: `clone := gerror.CloneBase(e, …row…); return e.toPrimaryType(clone)` -/
+def extMethod (d : ExtDef) (r : Row) (x : X) (c : Call) : X := toPrimary d x (execRow r x.base c)
+
+/-- `GError.Error()` without the trailing stack text: the part up to the message … -/
+def errorHead (e : E) : Str :=
+  (if e.name ≠ [] then "Name: ".toList ++ e.name ++ ", ".toList else []) ++
+  (if e.dtag ≠ [] then "DTag: ".toList ++ e.dtag ++ ", ".toList else []) ++
+  (if e.src ≠ [] then "Source: ".toList ++ e.src ++ ", ".toList else [])
+/-- … and the message -/
+def errorTail (e : E) : Str := "Message: ".toList ++ e.msg
+
+def baseError (e : E) : Str := errorHead e ++ errorTail e
+
+/-- one `result += fmt.Sprintf("<PrintAs>: %v", e.<Name>) + separator` -/
+def printField (x : X) (f : FieldDef) : Str := f.printAs ++ ": ".toList ++ x.val f.name ++ ", ".toList
+
+/-- the generated `Error()` (again without the stack text): name, tag, source, the fields to print,
+message — in the order of the template -/
+def extError (d : ExtDef) (x : X) : Str :=
+  errorHead x.base ++ (fieldsToPrint d).flatMap (printField x) ++ errorTail x.base
+
 /-! ## heap of error objects (immutability / write sets) -/
 
 /-- addresses are indices; every derivation allocates a new object at the end -/
